@@ -113,7 +113,7 @@ def write_replay(pid, obname, payload):
     d = os.path.join(VERIF, 'replays', pid)
     os.makedirs(d, exist_ok=True)
     h = hashlib.sha1((obname + json.dumps(payload, sort_keys=True, default=str)).encode()).hexdigest()[:10]
-    path = os.path.join(d, '%s-%s.json' % (obname.replace('/', '_').replace(' ', '_')[:80], h))
+    path = os.path.join(d, '%s-%s.json' % (''.join(ch if ch.isalnum() or ch in '._-' else '_' for ch in obname)[:80], h))
     payload = dict(payload, property=pid, obligation=obname, repo=REPO)
     with open(path, 'w') as f: json.dump(payload, f, indent=1, default=str)
     return path
